@@ -379,7 +379,28 @@ func c16R4(c *Ctx, id string) {
 				// direct calls
 				if ci, ok := in.(ssa.CallInstruction); ok && calleeOf(ci).Static == run {
 					refs++
-					bad = "run is called directly in " + shortFn(fn)
+					// the closure form of the method value: func() { b.run() } handed to b.start.Do and to nothing else
+					okThunk := false
+					if thunkTarget(fn) == run && fn.Parent() != nil {
+						okThunk = true
+						n := 0
+						eachInstr(fn.Parent(), func(pin ssa.Instruction) {
+							if mc, isMC := pin.(*ssa.MakeClosure); isMC && mc.Fn == ssa.Value(fn) {
+								for _, r := range *mc.Referrers() {
+									n++
+									if cu, isCall := r.(ssa.CallInstruction); !isCall || calleeOf(cu).Name() != "sync.(*Once).Do" || pathOf(cu.Common().Args[0]).Last() != startF {
+										okThunk = false
+									}
+								}
+							}
+						})
+						if n == 0 {
+							okThunk = false
+						}
+					}
+					if !okThunk {
+						bad = "run is called directly in " + shortFn(fn)
+					}
 				}
 				// bound method values b.run
 				if mc, ok := in.(*ssa.MakeClosure); ok {
@@ -447,6 +468,12 @@ func c16R5(c *Ctx, id string) {
 			if mc, isMC := ci.Common().Args[1].(*ssa.MakeClosure); isMC {
 				if f, isF := mc.Fn.(*ssa.Function); isF && strings.Contains(shortFn(f), "(*batch).trigger") {
 					ok = true
+				}
+				// func() { b.trigger() }
+				if f, isF := mc.Fn.(*ssa.Function); isF {
+					if t := thunkTarget(f); t != nil && strings.Contains(shortFn(t), "(*batch).trigger") {
+						ok = true
+					}
 				}
 			}
 			if ok {
